@@ -149,7 +149,7 @@ func TestC07(t *testing.T) {
 }
 
 func TestC08(t *testing.T) {
-	simCheck(t, spec{Prop: "C08", Profiles: []string{"crash", "snap", "flow"}, Steps: [2]int{300, 900},
+	simCheck(t, spec{Prop: "C08", Profiles: []string{"crash", "snap", "flow", "asnap"}, Steps: [2]int{300, 900},
 		RuleText: caseText + "non-trivial = a committed batch was emitted while an earlier one was un-acked, or a snapshot was installed between batches, or a node restarted with Applied below its previous applied index",
 		Rule: func(c *sim.CaseStats) bool {
 			return has(c, "apply.pipelined_batches", "snap.installed", "restart.applied_rewound")
@@ -157,7 +157,7 @@ func TestC08(t *testing.T) {
 }
 
 func TestC09(t *testing.T) {
-	simCheck(t, spec{Prop: "C09", Profiles: []string{"snap", "conf"}, Steps: [2]int{300, 900},
+	simCheck(t, spec{Prop: "C09", Profiles: []string{"snap", "conf", "asnap"}, Steps: [2]int{300, 900},
 		RuleText: caseText + "non-trivial = a MsgSnap was delivered (accepted, ignored, duplicated, to a non-member, or over an uncommitted tail)",
 		Rule:     func(c *sim.CaseStats) bool { return has(c, "snap.delivered") }})
 }
@@ -179,7 +179,7 @@ func TestC11(t *testing.T) {
 }
 
 func TestC14(t *testing.T) {
-	simCheck(t, spec{Prop: "C14", Profiles: []string{"all", "conf", "snap", "crash"}, Steps: [2]int{400, 1200},
+	simCheck(t, spec{Prop: "C14", Profiles: []string{"all", "conf", "snap", "crash", "asnap"}, Steps: [2]int{400, 1200},
 		RuleText: caseText + "non-trivial = the case executed >=3 of: crash+restart, conf change applied, snapshot install, message duplicate, message drop",
 		Rule: func(c *sim.CaseStats) bool {
 			n := 0
@@ -193,7 +193,7 @@ func TestC14(t *testing.T) {
 }
 
 func TestC15(t *testing.T) {
-	simCheck(t, spec{Prop: "C15", Profiles: []string{"live", "conf", "snap", "flow"}, Steps: [2]int{200, 500}, Liveness: true,
+	simCheck(t, spec{Prop: "C15", Profiles: []string{"live", "conf", "snap", "flow", "asnap"}, Steps: [2]int{200, 500}, Liveness: true,
 		RuleText: caseText + "then the fault-free suffix (all members of the committed config restarted, removed nodes stopped, links healed, every message delivered FIFO, snapshot outcomes reported, round-robin ticks for 60 x max(ElectionTick) rounds, fresh proposals and a ReadIndex at every member at half time) and the convergence oracle; non-trivial = the suffix started from a state with no leader / two leaders / a node down / an uncommitted tail / a follower paused or in StateSnapshot / a pending transfer / queued reads / a joint config / a partition",
 		Rule: func(c *sim.CaseStats) bool {
 			return has(c, "live.start_no_leader", "live.start_two_leaders", "live.start_node_down", "live.start_uncommitted_tail", "live.start_follower_in_snapshot",
